@@ -36,6 +36,7 @@ fn gen_case(c: &mut Choices) -> Case {
         error_rate: 4,
         max_sources: 4,
         max_items: 7,
+        no_temp_rewrite: true,
         ..GenParams::default()
     };
     let project = gen_project(c, &p);
@@ -105,6 +106,7 @@ pub fn check(case: &Case, st: &mut Stats) -> Check {
     su.write(&case.project);
     let mut sources: Bytes = su.tree.clone();
     let mut nontrivial = false;
+    let mut edited_since_build: Vec<String> = vec![];
     let last = case.steps.len() - 1;
     for (si, step) in case.steps.iter().enumerate() {
         match step {
@@ -132,6 +134,7 @@ pub fn check(case: &Case, st: &mut Stats) -> Check {
                 if crate::model::text_problem(&b).is_none() {
                     std::fs::write(su.sc.root.join(s), &b).expect("edit");
                     sources.insert(s.clone(), b);
+                    edited_since_build.push(s.clone());
                 }
             }
             Step::Tamper(which, op, pos) => {
@@ -161,9 +164,20 @@ pub fn check(case: &Case, st: &mut Stats) -> Check {
                 let opts = case.opts.with_mode(*mode);
                 let (rref, fresh, _) = reference_build(&su, &sources, &opts);
                 let before_bytes: Bytes = su.generated();
+                // sentinel mtimes, as in real life: generated files are newer than sources they
+                // were built from, a source edited after the last build is newer still
                 fsx::stamp(&su.sc.root);
+                for p in before_bytes.keys() {
+                    fsx::set_mtime(&su.sc.root.join(p), fsx::SENTINEL_SECS + 1000);
+                }
+                for p in &edited_since_build {
+                    fsx::set_mtime(&su.sc.root.join(p), fsx::SENTINEL_SECS + 2000);
+                }
                 let snap0 = fsx::snapshot(&su.sc.root);
                 let out = runner::run_free(&su.sc.root, &opts);
+                if matches!(mode, ModeS::Build | ModeS::Needed) && out.ok {
+                    edited_since_build.clear();
+                }
                 let snap1 = fsx::snapshot(&su.sc.root);
                 let d = fsx::diff(&snap0, &snap1);
                 let after_bytes: Bytes = su.generated();
@@ -260,7 +274,7 @@ impl Prop for C09 {
         }
     }
     fn worker(&self, ctx: &mut WorkerCtx) {
-        let total = if ctx.quick { 6_000 } else { 120_000 };
+        let total = if ctx.quick { 15_000 } else { 400_000 };
         let n = ctx.share(total);
         ctx.drive(1, n, 600, &gen_case, &check, &reduce);
     }
